@@ -113,7 +113,9 @@ claim('C19', 'Lean theorems about the filter-chain model for every distance func
       'messages without position pass the geographic filters; the great-circle distance is an uninterpreted '
       'parameter. Tie to filter.py by differential execution of chains of 1-5 filters in all orders on decoded '
       'messages of all kinds; haversine itself is compared with an independent formula (differential testing, '
-      'not proof).',
+      'not proof). The grid test is additionally tied by translation: filter.is_in_grid is rendered from the current '
+      'source on every run (Generated.isInGridFn) and C19_src_grid / C19_source_grid prove that text to be the closed '
+      'box the model and the property use.',
       FLOAT_NOTE + 'Partial: numerical accuracy of haversine (libm) is not proved. Filters are modelled with fresh '
       'filter objects (re-using one filter object in two chains leaves a stale next_filter; out of scope).',
       'DESIGN.md §5 C19')
